@@ -202,6 +202,21 @@ Lemma drop_padding_first e more :
   exists more', drop_padding_edges (e :: more) = e :: more'.
 Proof. destruct (drop_padding_cons e more) as (more' & H & _). exists more'. exact H. Qed.
 
+(* the facts above in one statement (props/C15.v) *)
+Lemma padding_read_facts es :
+  hd_error (drop_padding_edges es) = hd_error es /\
+  filter nontrivial (drop_padding_edges es) = filter nontrivial es /\
+  List.incl (drop_padding_edges es) es /\
+  length (filter nontrivial es) <= length (drop_padding_edges es) <= length es /\
+  (forallb nontrivial (tl es) = true -> drop_padding_edges es = es) /\
+  (padding_edges_dropped_at_read = false -> drop_padding_edges es = es) /\
+  drop_padding_edges (drop_padding_edges es) = drop_padding_edges es.
+Proof.
+  split; [apply drop_padding_hd|]. split; [apply drop_padding_filter|]. split; [apply drop_padding_incl|].
+  split; [split; [apply drop_padding_length_ge|apply drop_padding_length_le]|].
+  split; [apply drop_padding_id|]. split; [apply drop_padding_off|apply drop_padding_idem].
+Qed.
+
 (* ---------------------------------------------------------------- reading a row *)
 Lemma instantiate_unfold c r :
   instantiate c r =
